@@ -43,6 +43,12 @@ def provider_model(C):
     return out
 
 
+def _is_test_ty(F, ty):
+    """mock / test-only implementor (mockall's Mock*, anything under a tests module)"""
+    t = ty.split("<")[0]
+    return t.split("::")[-1].startswith("Mock") or "::tests::" in t or "::test::" in t
+
+
 def need_provider(C, rep, rid):
     ms = provider_model(C)
     ok = rep.anchor(rid, "non-test impl of PaymentProvider", len(ms), 1)
@@ -497,6 +503,35 @@ def v_wait_payment(C, rep, pfx):
                 exits = [(k, s) for k, ee, s, w in result_alternatives(b, X) if s in r]
                 rep.ob(rid, all(k in ("Err", "residual") for k, s in exits) and len(exits) >= 1, fn, "all non-tolerated error exits are Err", where=loc(b.term(errt)["sp"]), how="%d Err exits" % len(exits),
                        detail="" if all(k in ("Err", "residual") for k, s in exits) and len(exits) >= 1 else "error exits under the Err arm: %s" % [k for k, s in exits])
+        # ---- V6
+        rid = pfx + "-V6"
+        rep.rule(rid, "the wait for the outgoing parts is not bounded by a plugin-side clock: no tokio::time primitive (timeout, sleep, interval) in wait_payment or in the ClnRpc implementation's listsendpays / waitsendpay path - a part that stays pending longer than any such bound would be reported as `nothing pending`/error while it can still complete")
+        roots = [(m.wait_root, "wait_payment")]
+        for k in sorted(F.fns):
+            mt = re.match(r"^<(.+) as rpc::ClnRpc>::(listsendpays|waitsendpay)$", k)
+            if mt and not _is_test_ty(F, mt.group(1)):
+                roots.append((k, "%s::%s" % (mt.group(1).split("::")[-1], mt.group(2))))
+        rep.anchor(rid, "ClnRpc implementations of listsendpays/waitsendpay + wait_payment", len(roots), 3)
+        seen = set()
+        stack = [(r, lbl, [lbl]) for r, lbl in roots]
+        ncalls = 0
+        while stack:
+            root, lbl, path = stack.pop()
+            if root in seen:
+                continue
+            seen.add(root)
+            for g in F.group(root):
+                for c in g.calls:
+                    if c.noise:
+                        continue
+                    ncalls += 1
+                    if re.match(r"^tokio::time::(timeout|timeout_at|sleep|sleep_until|interval|interval_at)$", c.name) or c.name.startswith("tokio::time::Timeout") or c.name.startswith("tokio::time::Sleep") or c.name.startswith("tokio::time::Interval"):
+                        rep.ob(rid, False, F.root_of(g), "no clock on the wait path", where=c.loc,
+                               detail="%s is used on the path %s: a part still pending when it fires is abandoned (wait_payment then reports an error or `no payment` although the part can complete)" % (c.name, " -> ".join(path)))
+                    callee = c.resolved or c.name
+                    if (callee in F.fns or F.group(callee)) and callee not in seen and len(path) < 8:
+                        stack.append((callee, lbl, path + [callee.split("::")[-1]]))
+        rep.ob(rid, True, fn, "calls examined on the wait path", where="", how="%d calls in %d functions" % (ncalls, len(seen)), nontrivial=False)
         # ---- V1
         rid = pfx + "-V1"
         rep.rule(rid, "a returned preimage is the payment_preimage of a COMPLETE-listed part or of a successful waitsendpay")
